@@ -22,4 +22,5 @@ def obligations(tier):
             for kind in (2, 3, 8):
                 obls.append(api_step(op, it, ot, kind, 2))
     obls += kern_set(tier)        # L3: every access of the real kernels inside the FIFO allocations / coefficient table, library asserts on
+    obls += [plan_obl(0), plan_obl(1), plan_obl(1, 0), plan_obl(2)]      # planner pieces of cr.c (set_dft_length / dft_stage_init / validation prefix)
     return obls
